@@ -35,6 +35,38 @@ def all_fields(a):
     return out
 
 
+def r_serde_buffered(F, R, only=None):
+    """No deserialisation path of the crate goes through serde's buffered `Content` tree
+    (`#[serde(untagged)]`, `flatten`, internally / adjacently tagged enums): the buffer has no
+    128-bit integers and needs a self-describing format, so a region whose item or storage type
+    holds u128 / i128 (or any region under a binary format) serialises but does not deserialise.
+    The regions are generic over their items, so this is a type-level fact of the impl, not of
+    the data.  Positive evidence: a call of serde's `ContentRefDeserializer` / `ContentDeserializer`
+    / `ContentVisitor` in a non-test body of the crate."""
+    n = 0
+    for b in F.bodies.values():
+        if b.in_tests():
+            continue
+        hits = []
+        for (bi, t) in b.calls():
+            pth = str((t.get("callee") or {}).get("path") or "")
+            if "de::content::Content" in pth or "::ContentRefDeserializer" in pth or "::ContentDeserializer" in pth or \
+                    "::TaggedContentVisitor" in pth or "::FlatMapDeserializer" in pth:
+                hits.append((t["line"], pth.split("::")[-2] if "::" in pth else pth))
+        if hits:
+            n += 1
+            R.saw(b)
+            R.check("R-SERDE", b.label(), False, construct="deserialisation does not buffer the input in serde's Content tree",
+                    where="%s:%s" % (b.file, hits[0][0]),
+                    detail="calls %s: an untagged / flattened / internally tagged form is deserialised from a buffered copy of the "
+                           "input, which cannot hold 128-bit integers and needs a self-describing format -- regions over u128 / i128 "
+                           "items no longer round-trip" % sorted({h[1] for h in hits}))
+    R.info("R-SERDE: %d bodies deserialise through serde's buffered Content" % n)
+
+
+r_serde_buffered.serde_only = True
+
+
 def r_serde(F, R, only=None):
     if "serde" not in F.features:
         return
